@@ -228,6 +228,7 @@ func main() {
 	fuelF := fs.Int("fuel", 0, "loop fuel for the job (run)")
 	maxInstrF := fs.Int64("maxinstrs", 0, "instruction bound per path for the job (run)")
 	mapOrdersF := fs.Int("maporders", 0, "rotations explored per map range for the job (run)")
+	callDepthF := fs.Int("calldepth", 0, "engine call-depth bound for the job (run)")
 	prop := fs.String("prop", "", "property id (check)")
 	tier := fs.String("tier", "quick", "quick|thorough")
 	noReplay := fs.Bool("noreplay", false, "skip native replay")
@@ -246,6 +247,7 @@ func main() {
 		spec.Opts.LoopFuel = *fuelF
 		spec.Opts.MaxInstrs = int(*maxInstrF)
 		spec.Opts.MapOrders = *mapOrdersF
+		spec.Opts.MaxCallDepth = *callDepthF
 		if *argsS != "" {
 			for _, a := range strings.Split(*argsS, ",") {
 				var v int64
